@@ -48,11 +48,12 @@ class ChunkedReader:
         done = buf.getvalue()[:2] == b"\r\n"
         while idx < 0 and not done:
             self.get_data(unreader, buf)
-            # same cap as for the header block of the request head
-            if buf.tell() > self.req.max_buffer_headers:
-                raise LimitRequestHeaders("max buffer trailers")
             idx = buf.getvalue().find(b"\r\n\r\n")
             done = buf.getvalue()[:2] == b"\r\n"
+            # same cap as for the header block of the request head
+            if (idx < 0 and not done
+                    and buf.tell() > self.req.max_buffer_headers):
+                raise LimitRequestHeaders("max buffer trailers")
         if done:
             unreader.unread(buf.getvalue()[2:])
             return b""
